@@ -4,6 +4,7 @@ import (
 	"fmt"
 	"go/constant"
 	"go/token"
+	"strings"
 
 	"golang.org/x/tools/go/ssa"
 )
@@ -220,7 +221,7 @@ func (pe *pathEnum) instrs(c *seeCtx, b *ssa.BasicBlock, i int, st *pstate, emit
 		if call, ok := in.(*ssa.Call); ok {
 			callee := StaticCallee(&call.Call)
 			if callee != nil && callee.Blocks != nil && pe.opts.InlinePaths != nil && pe.opts.InlinePaths(callee) &&
-				!c.stack[callee] && c.depth < c.x.MaxDepth {
+				!c.stack[callee] && c.depth < 6 {
 				// Enumerate callee paths.
 				n := c.child(callee)
 				for pi, p := range callee.Params {
@@ -245,7 +246,14 @@ func (pe *pathEnum) instrs(c *seeCtx, b *ssa.BasicBlock, i int, st *pstate, emit
 					} else {
 						c2.memo[call] = &Expr{Op: OpStruct, Name: "tuple", Args: cp.Results, Typ: call.Type()}
 					}
-					if infeasible(st2.atoms) {
+					bad := false
+					for k := len(st.atoms) + 1; k <= len(st2.atoms); k++ {
+						if infeasible(st2.atoms[:k]) {
+							bad = true
+							break
+						}
+					}
+					if bad {
 						return
 					}
 					pe.instrs(c2, b, next, st2, emit)
@@ -361,6 +369,15 @@ func FoldBool(e *Expr) (bool, bool) {
 		if (e.Tok == token.EQL || e.Tok == token.NEQ) && pure(x) && x.String() == y.String() {
 			return e.Tok == token.EQL, true
 		}
+		// fmt.Errorf / errors.New never return nil
+		if x.Op == OpCall && x.Fn != nil && (x.Fn.String() == "fmt.Errorf" || x.Fn.String() == "errors.New") && y.Op == OpConst && y.Name == "nil" {
+			switch e.Tok {
+			case token.EQL:
+				return false, true
+			case token.NEQ:
+				return true, true
+			}
+		}
 		// &fresh != nil
 		if (x.Op == OpNew || x.Op == OpAddr || x.Op == OpClosure || x.Op == OpFunc) && y.Op == OpConst && y.Name == "nil" {
 			switch e.Tok {
@@ -381,7 +398,10 @@ func isNum(v constant.Value) bool {
 // pure reports whether e contains no calls (so equal strings mean equal values).
 func pure(e *Expr) bool {
 	return !e.Contains(func(x *Expr) bool {
-		return x.Op == OpCall || x.Op == OpRecv || x.Op == OpUnknown || (x.Op == OpLoop && x.Idx == 0)
+		if x.Op == OpCall {
+			return !pureCall(x)
+		}
+		return x.Op == OpRecv || x.Op == OpUnknown || (x.Op == OpLoop && x.Idx == 0)
 	})
 }
 
@@ -389,6 +409,22 @@ func pure(e *Expr) bool {
 func isLoopHeader(b *ssa.BasicBlock) bool {
 	for _, p := range b.Preds {
 		if b.Dominates(p) {
+			return true
+		}
+	}
+	return false
+}
+
+// pureCall reports whether a call expression is to a function known to be a
+// pure function of its arguments (value-receiver methods of netip/time types
+// and a few stdlib predicates).
+func pureCall(e *Expr) bool {
+	if e.Fn == nil {
+		return false
+	}
+	n := e.Fn.String()
+	for _, p := range []string{"(net/netip.Addr).", "(net/netip.Prefix).", "(time.Duration).", "net/netip.IPv6LinkLocalAllNodes", "net/netip.IPv6LinkLocalAllRouters", "net/netip.IPv6Unspecified", "net/netip.PrefixFrom", "net/netip.AddrFrom16"} {
+		if strings.HasPrefix(n, p) {
 			return true
 		}
 	}
